@@ -7,6 +7,8 @@ import (
 	"os"
 	"os/exec"
 	"path/filepath"
+	"strconv"
+	"strings"
 	"sync"
 	"syscall"
 	"time"
@@ -110,6 +112,13 @@ func startOnce(bin string, args []string, env []string) (*Process, error) {
 		c, err := net.DialTimeout("tcp", addr, 200*time.Millisecond)
 		if err == nil {
 			c.Close()
+			// Somebody listens on the port. On a busy machine that may be ANOTHER process which took the
+			// port before the child got to bind it (the child then exits a little later): where /proc
+			// can tell, go on only when the listening socket belongs to the child.
+			if known, owns := childListens(cmd.Process.Pid, port); known && !owns {
+				time.Sleep(30 * time.Millisecond)
+				continue
+			}
 			// make sure it is OUR child that listens (it must still be running a moment later)
 			time.Sleep(20 * time.Millisecond)
 			select {
@@ -123,6 +132,49 @@ func startOnce(bin string, args []string, env []string) (*Process, error) {
 	}
 	p.Stop()
 	return nil, fmt.Errorf("forwarder did not start listening on %s: %s", addr, out.String())
+}
+
+// childListens looks up the LISTEN socket of 127.0.0.1:port (or the wildcard address) in
+// /proc/net/tcp{,6} and reports whether one of the descriptors of process pid is that socket.
+// known=false when /proc does not give the answer (not Linux, no permission): callers then fall
+// back to "somebody listens".
+func childListens(pid, port int) (known, owns bool) {
+	inodes := map[string]bool{}
+	tables := 0
+	for _, f := range []string{"/proc/net/tcp", "/proc/net/tcp6"} {
+		b, err := os.ReadFile(f)
+		if err != nil {
+			continue
+		}
+		tables++
+		for _, line := range strings.Split(string(b), "\n")[1:] {
+			fs := strings.Fields(line)
+			if len(fs) < 10 || fs[3] != "0A" {
+				continue
+			}
+			if i := strings.LastIndexByte(fs[1], ':'); i >= 0 {
+				if p, err := strconv.ParseUint(fs[1][i+1:], 16, 32); err == nil && int(p) == port {
+					inodes[fs[9]] = true
+				}
+			}
+		}
+	}
+	dir := fmt.Sprintf("/proc/%d/fd", pid)
+	ents, err := os.ReadDir(dir)
+	if err != nil || tables == 0 {
+		return false, false
+	}
+	if len(inodes) == 0 {
+		return true, false
+	}
+	for _, e := range ents {
+		if l, err := os.Readlink(filepath.Join(dir, e.Name())); err == nil && strings.HasPrefix(l, "socket:[") {
+			if inodes[strings.TrimSuffix(strings.TrimPrefix(l, "socket:["), "]")] {
+				return true, true
+			}
+		}
+	}
+	return true, false
 }
 
 // Stop sends SIGTERM and waits (SIGKILL after 5 s).
